@@ -1539,16 +1539,16 @@ func (l *lexer) scanCmdSubst(r rune) bool {
 		yyParse(ll)
 		ll.wait()
 		if ll.err != nil {
-			l.mu.Lock()
-			l.err = ll.err
-			if len(ll.stack) == 0 && r == '`' {
-				err := l.err.(Error)
-				l.err = Error{
-					Name: err.Name,
-					Pos:  err.Pos,
+			err := ll.err
+			if e, ok := err.(Error); ok && len(ll.stack) == 0 && r == '`' {
+				err = Error{
+					Name: e.Name,
+					Pos:  e.Pos,
 					Msg:  "syntax error: unexpected '`'",
 				}
 			}
+			l.mu.Lock()
+			l.report(err)
 			l.mu.Unlock()
 			break
 		}
@@ -1750,9 +1750,7 @@ func (l *lexer) read() (rune, error) {
 		case err == io.EOF:
 			l.eof = true
 		default:
-			if _, ok := l.err.(Error); ok || l.err == nil {
-				l.err = err
-			}
+			l.report(err)
 		}
 		l.mu.Unlock()
 	case r == '\n':
@@ -1780,6 +1778,27 @@ func (l *lexer) unread() {
 	}
 }
 
+// report records err unless a more significant error has been recorded:
+// a read error is never replaced, and among syntax errors the first one
+// in the source is kept. l.mu must be held.
+func (l *lexer) report(err error) {
+	if l.err != nil {
+		old, ok := l.err.(Error)
+		if !ok {
+			return // a read error is never replaced
+		}
+		if e, ok := err.(Error); ok {
+			if strings.Contains(e.Msg, ": unexpected EOF") {
+				return // lexing was interrupted
+			}
+			if !e.Pos.Before(old.Pos) {
+				return // the first error in the source is reported
+			}
+		}
+	}
+	l.err = err
+}
+
 // wait stops the lexer goroutine and waits for it to exit.
 func (l *lexer) wait() {
 	verifPoint(9)
@@ -1802,21 +1821,11 @@ func (l *lexer) error(pos ast.Pos, msg string) {
 	l.mu.Lock()
 	defer l.mu.Unlock()
 
-	if l.err != nil {
-		switch e, ok := l.err.(Error); {
-		case !ok:
-			return // a read error is never replaced
-		case strings.Contains(msg, ": unexpected EOF"):
-			return // lexing was interrupted
-		case !pos.Before(e.Pos):
-			return // the first error in the source is reported
-		}
-	}
-	l.err = Error{
+	l.report(Error{
 		Name: l.name,
 		Pos:  pos,
 		Msg:  msg,
-	}
+	})
 
 	select {
 	case <-l.cancel:
